@@ -272,7 +272,8 @@ class Runner:
             self.stats.extra[k] = v
         # minimise the smallest failing case of (a few) new signatures
         for sig in sorted(self.stats.new, key=lambda s: self.stats.new[s][0])[:4]:
-            if getattr(prop, "minimise", True):
+            # (VF_NO_MINIMISE: sensitivity runs only want to know whether the check fires)
+            if getattr(prop, "minimise", True) and not os.environ.get("VF_NO_MINIMISE"):
                 self.shrink(sig)
         return self.stats
 
